@@ -489,6 +489,7 @@ def MState.step (m : MState) (st : IStep) : MState :=
       | .ok => if st.ds.isEmpty then m else m.bad "C11" "delivery-on-receive" (flat s!"{reprStr st.ds}")
       | _ => m.onEnd c st.ds "error-departure"
     | .connect _ | .tick _ | .drain => if st.ds.isEmpty then m else m.bad "C03" "delivery-without-cause" (flat s!"{reprStr st.ds}")
+    | .conc _ => m
   let m := match st.ev with
     | .handle c _ _ | .disconnect c | .recv c _ =>
       match frameCheck m0 m c st.ds with
